@@ -611,11 +611,7 @@ func (p *projSpec) sync(root string, prev map[string]string) (map[string]string,
 		if old, ok := prev[n]; ok && old == cur[n] {
 			continue
 		}
-		path := filepath.Join(root, n)
-		if err := os.MkdirAll(filepath.Dir(path), 0755); err != nil {
-			return nil, err
-		}
-		if err := os.WriteFile(path, []byte(cur[n]), 0644); err != nil {
+		if err := writeEntry(root, n, cur[n]); err != nil {
 			return nil, err
 		}
 	}
@@ -631,6 +627,35 @@ func (p *projSpec) sync(root string, prev map[string]string) (map[string]string,
 		}
 	}
 	return cur, nil
+}
+
+// linkMark: a Files entry with this prefix is a symbolic link to the (relative) path that follows.
+const linkMark = "\x00link:"
+
+// writeEntry creates or replaces one project file: a regular file, or a symbolic link.
+func writeEntry(root, rel, content string) error {
+	path := filepath.Join(root, rel)
+	if err := os.MkdirAll(filepath.Dir(path), 0755); err != nil {
+		return err
+	}
+	if st, err := os.Lstat(path); err == nil && st.Mode()&os.ModeSymlink != 0 {
+		os.Remove(path) // never write through a link
+	}
+	if strings.HasPrefix(content, linkMark) {
+		os.Remove(path)
+		return os.Symlink(strings.TrimPrefix(content, linkMark), path)
+	}
+	return os.WriteFile(path, []byte(content), 0644)
+}
+
+// fileContent is what reading the entry yields: for a link, the file it points to.
+func (p *projSpec) fileContent(rel string) string {
+	c := p.Files[rel]
+	if strings.HasPrefix(c, linkMark) {
+		dest := filepath.Join(filepath.Dir(rel), strings.TrimPrefix(c, linkMark))
+		return "link to " + dest + ": " + p.Files[dest]
+	}
+	return c
 }
 
 // bodySpecs derives what each body does from the spec (paths are absolute under root).
